@@ -312,7 +312,16 @@ def run(rep: Report, tier: str) -> None:
 		name = names[0]
 		builtin_calls = {n.func.id for n in ast.walk(ret.value) if isinstance(n, ast.Call) and isinstance(n.func, ast.Name) and n.func.id in ('int', 'float', 'str', 'bool')}
 		seen_casts.add(name)
-		r4.check(builtin_calls == {name}, f'cast:{name}', (EVAL, ret.lineno), f'the emulation of `{name}(...)` calls {sorted(builtin_calls)}', unparse(ret))
+		# `T(x)` for an x that already is a T is x itself: returning the argument under isinstance(argument, T) needs no builtin
+		identity = not builtin_calls and unparse(ret.value) == f'{fc.params()[-1]}[0]' and any(p_ and isinstance(a, ast.Call) and unparse(a.func) == 'isinstance' and len(a.args) == 2 and unparse(a.args[0]) == unparse(ret.value) and unparse(a.args[1]) == name for a, p_ in atoms(fcx, ret))
+		r4.check(builtin_calls == {name} or identity, f'cast:{name}', (EVAL, ret.lineno), f'the emulation of `{name}(...)` calls {sorted(builtin_calls)}', unparse(ret))
+	# a cast arm converts arguments[0] only: it may be reached only for calls with exactly one argument (int('10', 2) is 2 in Python, not 10)
+	for ret in nodes(fcx, ast.Return):
+		if ret.value is None or not any(isinstance(x, ast.Subscript) and unparse(x) == f'{fc.params()[-1]}[0]' for x in ast.walk(ret.value)):
+			continue
+		known_ = atoms(fcx, ret)
+		arity = any((isinstance(a, ast.Compare) and 'len(' in unparse(a) and unparse(a.comparators[0]) == '1' and ((isinstance(a.ops[0], ast.Eq) and p_) or (isinstance(a.ops[0], ast.NotEq) and not p_))) for a, p_ in known_)
+		r4.check(arity, f'cast-arity:{unparse(ret.value)[:40]}', (EVAL, ret.lineno), f'`{unparse(ret)[:70]}` folds the first argument whatever else was passed: `int(\'10\', 2)` folds to 10 (Python: 2), `float(\'1.5\', 3)` to 1.5 (Python: TypeError); the arm must be guarded by len(arguments) == 1', unparse(ret)[:100])
 	if not seen_casts:
 		r4.skip('cast:?', fc.where, 'on_func_call no longer has `return <builtin>(...)` arms under `<callee name> == \'<builtin>\'`')
 	# the content of a string literal is the text between its two quote characters: exactly one character is removed per side
